@@ -30,6 +30,7 @@ func sitePos(site ssa.Instruction) token.Pos {
 
 // callWith handles a call with already evaluated arguments (used for defers too).
 func (e *Enc) callWith(fr *Frame, c *ssa.CallCommon, site ssa.Instruction, st *State, rb Term, args []Val, fnv *Val) (Val, *State, Term) {
+	e.checkMapRange(fr, c, site, rb)
 	resT := c.Signature().Results()
 	var resType types.Type = resT
 	if resT.Len() == 1 {
@@ -932,4 +933,64 @@ func (e *Enc) addContractMods(ct *Contract, set map[string]bool, all, allRepo *b
 		}
 		*pats = append(*pats, p)
 	}
+}
+
+// checkMapRange: obligation that a call named in the host contract's `nomaprange` clause is not
+// reachable inside a loop ranging over a map.
+func (e *Enc) checkMapRange(fr *Frame, c *ssa.CallCommon, site ssa.Instruction, rb Term) {
+	top := fr.top
+	if top == nil || top.contract == nil || len(top.contract.NoMapRange) == 0 || site == nil {
+		return
+	}
+	name := ""
+	if c.IsInvoke() {
+		name = ifaceMethodKey(c.Value.Type(), c.Method)
+	} else if f, ok := c.Value.(*ssa.Function); ok {
+		name = fnKey(f)
+	} else {
+		return
+	}
+	hit := false
+	for _, p := range top.contract.NoMapRange {
+		if strings.Contains(name, p) {
+			hit = true
+		}
+	}
+	if !hit || !inMapRangeLoop(site.Block()) {
+		return
+	}
+	e.ob(fr, "maprange", e.nextName(fr, "maprange@"+shortKey(name)), rb, "false",
+		"call of "+shortKey(name)+" inside a loop ranging over a map (iteration order is random)", site.Pos())
+}
+
+// inMapRangeLoop: the block belongs to a natural loop whose header (or body) advances a map iterator.
+func inMapRangeLoop(b *ssa.BasicBlock) bool {
+	fn := b.Parent()
+	for _, h := range fn.Blocks {
+		isHeader := false
+		for _, p := range h.Preds {
+			if isBackEdge(p, h) {
+				isHeader = true
+			}
+		}
+		if !isHeader {
+			continue
+		}
+		body := loopBody(h)
+		if !body[b] {
+			continue
+		}
+		for blk := range body {
+			for _, in := range blk.Instrs {
+				if nx, ok := in.(*ssa.Next); ok && !nx.IsString {
+					if rg, ok := nx.Iter.(*ssa.Range); ok {
+						if _, isMap := rg.X.Type().Underlying().(*types.Map); isMap {
+							return true
+						}
+					}
+				}
+			}
+		}
+	}
+	return false
 }
